@@ -7,7 +7,7 @@
 From Coq Require Import List String Bool Permutation.
 From Coq Require Import Floats.PrimFloat.
 From PAFC01 Require Import ModelTree Model Proofs2 Proofs3.
-From PAFC08 Require Import Model Lib Proofs1 Proofs2 Proofs3 Proofs4 Proofs5 Proofs6 Proofs7 Proofs8 Witness.
+From PAFC08 Require Import Model Lib Proofs1 Proofs2 Proofs3 Proofs4 Proofs5 Proofs6 Proofs7 Proofs8 Proofs9 Witness.
 Import ListNotations.
 
 (* ---- one round trip (any of the three forms) succeeds and yields an equivalent model; PARTIAL: under
@@ -57,8 +57,8 @@ Proof. exact full_sequences. Qed.
 Theorem C08_zero_prior_fixed :
   plain_cf float cfg_fixed w_zero_tuple = true /\ plain_cf float cfg_fixed w_zero_extra = true /\
   (exists n', dict_rt float ffalsy cfg_fixed w_zero_tuple = Ok n' /\
-     ival_eqb (inst_from_paths float fbin (tree float n') [(["h"; "a"]%string, 0.5%float)])
-              (inst_from_paths float fbin (tree float w_zero_tuple) [(["h"; "a"]%string, 0.5%float)]) = true) /\
+     ival_eqb (inst_from_paths float fbin funop (tree float n') [(["h"; "a"]%string, 0.5%float)])
+              (inst_from_paths float fbin funop (tree float w_zero_tuple) [(["h"; "a"]%string, 0.5%float)]) = true) /\
   (exists n', dict_rt float ffalsy cfg_fixed w_zero_extra = Ok n' /\
      snode_eqb (smap float (forget_f float) (norm float n')) (smap float (forget_f float) (norm float w_zero_extra)) = true).
 Proof. exact zero_prior_next. Qed.
@@ -80,9 +80,9 @@ Theorem C08_count : forall (V : Type) (n n' : snode V), equiv V n n' -> prior_co
 Proof. exact equiv_count. Qed.
 
 (* supplying the same value for each path yields equal instances (fixed values, derived values, tuples included) *)
-Theorem C08_instance : forall (V : Type) (bin : binop -> V -> V -> V) (n n' : snode V) (pv : list (path * V)),
+Theorem C08_instance : forall (V : Type) (bin : binop -> V -> V -> V) (un : unop -> V -> V) (n n' : snode V) (pv : list (path * V)),
   equiv V n n' -> wf V (tree V n) ->
-  inst_from_paths V bin (tree V n') pv = inst_from_paths V bin (tree V n) pv.
+  inst_from_paths V bin un (tree V n') pv = inst_from_paths V bin un (tree V n) pv.
 Proof. exact equiv_instance. Qed.
 
 (* the ModelTree of an equivalent model is the original one renamed injectively *)
@@ -107,8 +107,8 @@ Theorem C08_ren_count : forall (V : Type) (s : nat -> nat) (n : node V),
   inj_on s (prior_ids V n) -> prior_count V (ren V s n) = prior_count V n.
 Proof. exact prior_count_ren. Qed.
 
-Theorem C08_ren_instance : forall (V : Type) (bin : binop -> V -> V -> V) (s : nat -> nat) (n : node V) (pv : list (path * V)),
-  wf V n -> inj_on s (prior_ids V n) -> inst_from_paths V bin (ren V s n) pv = inst_from_paths V bin n pv.
+Theorem C08_ren_instance : forall (V : Type) (bin : binop -> V -> V -> V) (un : unop -> V -> V) (s : nat -> nat) (n : node V) (pv : list (path * V)),
+  wf V n -> inj_on s (prior_ids V n) -> inst_from_paths V bin un (ren V s n) pv = inst_from_paths V bin un n pv.
 Proof. exact inst_from_paths_ren. Qed.
 
 (* ---- the pinned database form in general: parameter p comes back under its MESSAGE id mu p ---- *)
@@ -136,21 +136,21 @@ Proof. exact db_image. Qed.
 
 (* models WITH arithmetic priors through the database: the operand attribute names change (C08_arith_names_refuted)
    but the parameter order, the count and the instance built from every vector do not *)
-Theorem C08_db_arith : forall (V : Type) (cf : cfg) (bin : binop -> V -> V -> V) (n : snode V) (vec : list V),
+Theorem C08_db_arith : forall (V : Type) (cf : cfg) (bin : binop -> V -> V -> V) (un : unop -> V -> V) (n : snode V) (vec : list V),
   forall_nodes V (db_chain_ok V cf) n = true -> all_occs V (db_occ_ok V cf) n = true -> wf V (tree V n) ->
   exists n', db_rt V cf n = Ok n' /\
              ordered_ids V (tree V n') = ordered_ids V (tree V n) /\
              prior_count V (tree V n') = prior_count V (tree V n) /\
-             inst_from_vector V bin (tree V n') vec = inst_from_vector V bin (tree V n) vec.
+             inst_from_vector V bin un (tree V n') vec = inst_from_vector V bin un (tree V n) vec.
 Proof. exact db_arith. Qed.
 
 (* models WITH arithmetic priors through dict/JSON: the reload succeeds, renames the parameters injectively,
    keeps their number, and builds the same instance from every assignment of values to parameters *)
-Theorem C08_dict_arith : forall (V : Type) (bin : binop -> V -> V -> V) (falsy : V -> bool) (cf : cfg) (n : snode V),
+Theorem C08_dict_arith : forall (V : Type) (bin : binop -> V -> V -> V) (un : unop -> V -> V) (falsy : V -> bool) (cf : cfg) (n : snode V),
   forall_nodes V (dict_node_ok2 V falsy cf) n = true -> all_occs V (occ_ok V cf) n = true -> wf V (tree V n) ->
   exists n' s, dict_rt V falsy cf n = Ok n' /\ inj_on s (node_ids V n) /\
                prior_count V (tree V n') = prior_count V (tree V n) /\
-               forall a : nat -> option V, inst V bin a (tree V n') = inst V bin (fun q => a (s q)) (tree V n).
+               forall a : nat -> option V, inst V bin un a (tree V n') = inst V bin un (fun q => a (s q)) (tree V n).
 Proof. exact dict_arith. Qed.
 
 (* ---- models with arithmetic priors ANYWHERE: with the operands of every arithmetic prior put under the fixed
@@ -206,8 +206,8 @@ Proof. exact arith_names_refuted. Qed.
 
 Theorem C08_zero_prior_legacy_refuted :
   exists n n', dict_rt float ffalsy cfg_pinned n = Ok n' /\
-    ival_eqb (inst_from_paths float fbin (tree float n') [(["h"; "a"]%string, 0.5%float)])
-             (inst_from_paths float fbin (tree float n) [(["h"; "a"]%string, 0.5%float)]) = false.
+    ival_eqb (inst_from_paths float fbin funop (tree float n') [(["h"; "a"]%string, 0.5%float)])
+             (inst_from_paths float fbin funop (tree float n) [(["h"; "a"]%string, 0.5%float)]) = false.
 Proof. exact zero_prior_tuple_refuted. Qed.
 
 Theorem C08_zero_prior_extra_legacy_refuted :
@@ -227,6 +227,31 @@ Theorem C08_chained_legacy_refuted :
   db_rt float cfg_pinned w_chain = Err EAttributeError /\ guard float ffalsy cfg_pinned FDict w_chain = true.
 Proof. exact chained_refuted. Qed.
 
+(* ---------- the unary node (ModifiedPrior: -x, abs(x)) ----------
+   every storage form writes the operand's attribute name and reads it back: kind, operator and name survive; a unary
+   node stays inside the guards of C08_round_trip_partial (so the reloaded model is EQUIVALENT, names included);
+   its ModelTree view is the NUn node of C01 *)
+Theorem C08_unary_rebuilt : forall (V : Type) (cf : cfg) (o : unop) (ch0 ch : list (string * snode V)) (a0 a : list (assertion V)),
+  dict_post V cf (SNode (KUn o) ch0 a0) ch a = SNode (KUn o) ch a /\
+  rebuild_bin_default V (SNode (KUn o) ch0 a0) ch a = SNode (KUn o) ch a /\
+  rebuild_same V (SNode (KUn o) ch0 a0) ch a = SNode (KUn o) ch a.
+Proof. exact unary_rebuilt. Qed.
+
+Theorem C08_unary_in_guards : forall (V : Type) (falsy : V -> bool) (cf : cfg) (o : unop) (ch : list (string * snode V))
+    (a : list (assertion V)),
+  dict_node_ok V falsy cf (SNode (KUn o) ch a) = true /\
+  db_node_ok V cf (SNode (KUn o) ch a) = (fix_chain cf || negb (existsb (is_and V) a))%bool /\
+  dict_pre V cf (SNode (KUn o) ch a) = None /\ as_instance V cf (SNode (KUn o) ch a) = false.
+Proof. exact unary_in_guards. Qed.
+
+Theorem C08_unary_tree : forall (V : Type) (o : unop) (nm : string) (c : snode V) (a : list (assertion V)),
+  tree V (SNode (KUn o) [(nm, c)] a) = NUn o nm (tree V c).
+Proof. exact unary_tree. Qed.
+
+Theorem C08_unary_name_canonical : forall (V : Type) (o : unop) (nm : string) (c : node V),
+  cn V (NUn o nm c) = NUn o nm (cn V c) /\ forall s, ren V s (NUn o nm c) = NUn o nm (ren V s c).
+Proof. exact unary_name_canonical. Qed.
+
 Print Assumptions C08_round_trip_partial.
 Print Assumptions C08_dict_partial.
 Print Assumptions C08_iter_partial.
@@ -237,6 +262,10 @@ Print Assumptions C08_dict_image.
 Print Assumptions C08_db_arith.
 Print Assumptions C08_dict_arith.
 Print Assumptions C08_iter_arith.
+Print Assumptions C08_unary_rebuilt.
+Print Assumptions C08_unary_in_guards.
+Print Assumptions C08_unary_tree.
+Print Assumptions C08_unary_name_canonical.
 
 (* ---- write/read HISTORIES on one store object (History.v): for any history of writes, write-backs, add /
    flush / commit / reload on any number of slots, a read returns the decoded image of the LAST write to that
